@@ -25,7 +25,7 @@ def run(chk):
     thorough = chk.tier == "thorough"
     chk.rule = ("peak live heap (counting global allocator, in-process, same BufReader/BufWriter capacities as main) for growing sizes; -M: one line "
                 "of N bytes (no delimiter selected / no delimiter unselected with fallback / delimiter every 8 bytes with an open range / two "
-                "separate fields); -f fast and general path, -c, --json, -l ascending: R records of ~10 bytes; plus 30 (thorough: 120) random option sets per run — -f with subsets of "
+                "separate fields); -f fast and general path, -c, --json, -l ascending: R records of ~10 bytes and of 38 KB (most of them straddle a 64 KiB refill), requests near the top and near the END of the input; plus 30 (thorough: 120) random option sets per run — -f with subsets of "
                 "-g -p -t -s -j -r --json and random bounds / delimiters / record shapes, -M with random bounds / -j / -r / patterns, -l with random "
                 "ascending requests — at 64 KiB and 8 MiB (thorough: 64 MiB); a run counts as non-trivial when it processed ≥ 1 MiB; control: the buffered -l (negative index) must be SEEN to grow, which shows the measurement is sensitive")
     line_sizes = [1 << 20, 1 << 24, 1 << 28] if thorough else [1 << 18, 1 << 22, 1 << 26]
@@ -59,6 +59,20 @@ def run(chk):
     for name, bf in [("-l single line at the very end", lambda r: str(r - 1)), ("-l short range near the end", lambda r: f"{r - 20}:{r - 10}"),
                      ("-l first line and one at the end", lambda r: f"1,{r - 2}"), ("-l open range starting near the end", lambda r: f"{r - 5}:")]:
         scen.append((name, [(["bt=l", "d=0a", "b=" + hx(bf(r)), "j=1", "pat=" + rec, f"count={r}"], r * 10) for r in rec_counts]))
+    # the same with LONG records (a sizeable fraction of the 64 KiB read buffer, so that most records straddle a refill): the bound is the
+    # longest record, not their number
+    longrec = hx(b"a" * 19000 + b"-" + b"b" * 19000 + b"-cc\n")
+    long_counts = [8, 64, 512] if not thorough else [8, 128, 2048]
+    for name, extra, bf in [
+        ("-f fast path, long records", ["d=" + hx("-"), "j=1"], lambda r: "2,1"),
+        ("-f general path (-g -j), long records", ["d=" + hx("-"), "g=1", "j=1"], lambda r: "-1,2"),
+        ("-f --json, long records", ["d=" + hx("-"), "json=1", "j=1", "r=" + hx(",")], lambda r: "1:"),
+        ("-l ascending, long lines, everything printed", ["bt=l", "d=0a", "j=1"], lambda r: "1:"),
+        ("-l long lines, single line at the very end", ["bt=l", "d=0a", "j=1"], lambda r: str(r - 1)),
+        ("-l long lines, first line and one near the end", ["bt=l", "d=0a", "j=1"], lambda r: f"1,{r - 2}"),
+        ("-M long records, field 2", ["M=1", "d=" + hx("-")], lambda r: "2"),
+    ]:
+        scen.append((name, [(extra + ["b=" + hx(bf(r)), "pat=" + longrec, f"count={r}"], r * 38004) for r in long_counts]))
     recz = hx(b"aa-bbb-cc\0")
     for name, extra in [
         ("-z -l ascending, many lines", ["bt=l", "d=00", "z=1", "b=" + hx("2,5:"), "j=1"]),
